@@ -123,6 +123,21 @@ def one(job):
             # a stale output of a failed unit may be removed (GNU as and gcc do that) but never rewritten
             if os.path.exists(q) and open(q, errors='replace').read() != 'SENTINEL':
                 problems.append('output of a failed unit was created or overwritten: %s' % f)
+        if not exp_fail and p.returncode == 0:
+            # "on success exactly the requested outputs exist": nothing else may appear in the directory ...
+            allowed = {'shim', 'tmplog', 'no_such_dir'} | {n for n, k in inputs} | set(must)
+            extra = sorted(f for f in os.listdir(d) if f not in allowed and not f.startswith('cnt.'))
+            if extra:
+                problems.append('files that were not requested were created: %s' % extra)
+            # ... and the executable is the link of every input
+            exe = os.path.join(d, 'out' if has_o else 'a.out')
+            if mode == 'link' and os.path.exists(exe):
+                nm = subprocess.run(['nm', exe], capture_output=True, text=True).stdout
+                defined = set(l.split()[-1] for l in nm.split('\n') if len(l.split()) == 3 and l.split()[1] in 'Tt')
+                for i, (name, kind) in enumerate(inputs):
+                    sym = {'good.c': 'g%d' % i, 'goodasm.s': 'a%d' % i}.get(kind) if name != 'mainx.c' else 'main'
+                    if sym and sym not in defined:
+                        problems.append('input %s was not linked into the executable (symbol %s missing)' % (name, sym))
         log = open(os.path.join(d, 'tmplog')).read().split('\n') if os.path.exists(os.path.join(d, 'tmplog')) else []
         left = [l.split()[2] for l in log if l and os.path.exists(l.split()[2])]
         if left:
